@@ -33,7 +33,13 @@ type rcCase struct {
 	Note   string `json:"note,omitempty"`
 }
 
-func init() { families["race"] = runRace }
+func init() {
+	families["race"] = runRace
+	// a child that died: a panic on a goroutine of the library took the host process down
+	childFailObs["race"] = func(c interface{}) (string, string) {
+		return sx.String(sx.L{sx.I(0), sx.I(0)}), sx.String(sx.L{sx.I(0), sx.I(0), sx.I(1), sx.I(0), sx.L{}, sx.L{}})
+	}
+}
 
 func genRace(o opts) []rcCase {
 	r := hk.Rng(o.seed + 151)
@@ -42,7 +48,7 @@ func genRace(o opts) []rcCase {
 		n = 120
 	}
 	var cs []rcCase
-	for _, kind := range []string{"client-methods", "dispense", "broker", "shutdown"} {
+	for _, kind := range []string{"client-methods", "dispense", "broker", "shutdown", "accept-close"} {
 		for _, pm := range []struct {
 			p string
 			m bool
@@ -55,7 +61,7 @@ func genRace(o opts) []rcCase {
 			p string
 			m bool
 		}{{"netrpc", false}, {"grpc", false}, {"grpc", true}})
-		cs = append(cs, rcCase{Kind: hk.Pick(r, []string{"client-methods", "dispense", "broker", "broker", "shutdown", "shutdown"}), Proto: pm.p, Mux: pm.m,
+		cs = append(cs, rcCase{Kind: hk.Pick(r, []string{"client-methods", "dispense", "broker", "broker", "shutdown", "shutdown", "accept-close"}), Proto: pm.p, Mux: pm.m,
 			N: 2 + r.Intn(14), K: 1 + r.Intn(8), Jitter: hk.Pick(r, []int{0, 50, 500, 3000})})
 	}
 	for i := range cs {
@@ -112,7 +118,11 @@ func runOneRace(c rcCase) (sx.V, sx.V, rcCase) {
 			time.Sleep(time.Duration(x%uint64(c.Jitter)) * time.Microsecond)
 		})
 	}
-	o := vpOpts{Proto: c.Proto, Mux: c.Mux, Plugin: map[string]interface{}{"jitter_us": c.Jitter}}
+	if c.Kind == "accept-close" {
+		return runAcceptClose(c, prefix)
+	}
+	var perr syncBuf
+	o := vpOpts{Proto: c.Proto, Mux: c.Mux, Plugin: map[string]interface{}{"jitter_us": c.Jitter}, Stderr: &perr}
 	cfg := vpClientConfig(o)
 	cl := plugin.NewClient(cfg)
 	var hostIDs, plugIDs []uint32
@@ -291,7 +301,7 @@ func runOneRace(c rcCase) (sx.V, sx.V, rcCase) {
 	time.Sleep(300 * time.Millisecond) // let the plugin's race log reach the disk
 	rh, firstH := raceReports(prefix, os.Getpid())
 	rp, firstP := raceReports(prefix, pluginPid)
-	np := int(atomic.LoadInt32(&racePanics))
+	np := int(atomic.LoadInt32(&racePanics)) + pluginPanics(perr.Bytes())
 	if firstH != "" || firstP != "" {
 		c.Note = firstH + firstP
 		if len(c.Note) > 3000 {
@@ -339,4 +349,125 @@ func runRace(o opts) error {
 	os.MkdirAll(logdir, 0o755)
 	os.Setenv("GORACE", "log_path="+filepath.Join(logdir, "r")+" halt_on_error=0 exitcode=0")
 	return fanOut(o, "race", 20, "r", len(cs), func(i int) interface{} { return cs[i] }, sink, 6)
+}
+
+// pluginPanics counts Go panics in what the plugin wrote to its stderr.
+func pluginPanics(b []byte) int {
+	n := 0
+	for _, ln := range strings.Split(string(b), "\n") {
+		if strings.HasPrefix(ln, "panic: ") || strings.HasPrefix(ln, "fatal error: ") {
+			n++
+		}
+	}
+	return n
+}
+
+// runAcceptClose: broker Accept calls with distinct fresh ids in flight on both sides while the protocol client is closed
+// (shutdown racing in-flight operations), several sessions per case.  A panic on the host kills this child (reported by
+// the parent); a panic in the plugin shows on its stderr.
+func runAcceptClose(c rcCase, prefix string) (sx.V, sx.V, rcCase) {
+	rh, rp, np := 0, 0, 0
+	first := ""
+	if c.Proto != "grpc" {
+		// net/rpc: Accept/Dial on the MuxBroker racing Close
+		c.Note = "net/rpc variant"
+	}
+	for trial := 0; trial < 8; trial++ {
+		var perr syncBuf
+		cfg := vpClientConfig(vpOpts{Proto: c.Proto, Mux: c.Mux, Plugin: map[string]interface{}{"jitter_us": c.Jitter}, Stderr: &perr})
+		cl := plugin.NewClient(cfg)
+		rpcc, err := cl.Client()
+		if err != nil {
+			cl.Kill()
+			continue
+		}
+		pid := cl.ReattachConfig().Pid
+		raw, err := rpcc.Dispense("vp")
+		if err != nil {
+			cl.Kill()
+			continue
+		}
+		caller := raw.(vp.Caller)
+		var wg sync.WaitGroup
+		stop := make(chan struct{})
+		for g := 0; g < c.N; g++ {
+			wg.Add(1)
+			go func(g int) {
+				defer wg.Done()
+				guard(func() {
+					for k := 0; ; k++ {
+						select {
+						case <-stop:
+							return
+						default:
+						}
+						id := uint32(300000 + trial*10000 + g*500 + k)
+						if g%2 == 0 {
+							if gb := caller.GRPC(); gb != nil {
+								if ln, err := gb.Accept(id); err == nil {
+									ln.Close()
+								} else {
+									return
+								}
+							} else {
+								done := make(chan struct{})
+								go func() { caller.Mux().Dial(id); close(done) }()
+								select {
+								case <-done:
+								case <-stop:
+									return
+								}
+							}
+						} else {
+							// the plugin accepts: its Send is in flight when Stop arrives
+							if _, err := caller.Call(vp.Req{Op: "accept", ID: id + 100000}); err != nil {
+								return
+							}
+						}
+					}
+				})
+			}(g)
+		}
+		time.Sleep(time.Duration(3+(int(c.Seed)+trial*7)%25) * time.Millisecond)
+		var cw sync.WaitGroup
+		for k := 0; k < 2; k++ {
+			cw.Add(1)
+			go func() { defer cw.Done(); guard(func() { rpcc.Close() }) }()
+		}
+		cw.Wait()
+		close(stop)
+		wgDone := make(chan struct{})
+		go func() { wg.Wait(); close(wgDone) }()
+		select {
+		case <-wgDone:
+		case <-time.After(8 * time.Second):
+		}
+		kd := make(chan struct{})
+		go func() { cl.Kill(); close(kd) }()
+		select {
+		case <-kd:
+		case <-time.After(8 * time.Second):
+		}
+		time.Sleep(100 * time.Millisecond)
+		n, f := raceReports(prefix, pid)
+		rp += n
+		if first == "" {
+			first = f
+		}
+		np += pluginPanics(perr.Bytes())
+		if pp := pluginPanics(perr.Bytes()); pp > 0 && first == "" {
+			first = string(perr.Bytes())
+		}
+	}
+	n, f := raceReports(prefix, os.Getpid())
+	rh = n
+	if first == "" {
+		first = f
+	}
+	np += int(atomic.LoadInt32(&racePanics))
+	if len(first) > 3000 {
+		first = first[:3000]
+	}
+	c.Note = first
+	return sx.L{sx.I(0), sx.I(0)}, sx.L{sx.I(rh), sx.I(rp), sx.I(np), sx.I(0), sx.L{}, sx.L{}}, c
 }
